@@ -304,7 +304,8 @@ class Scene(Geometry3D):
         geometry = self.geometry
         # hash of geometry and transforms
         # start with the last modified time of the scene graph
-        hashable = [hex(self.graph.transforms.__hash__())]
+        # every scene level value is relative to the base frame
+        hashable = [hex(self.graph.transforms.__hash__()), str(self.graph.base_frame)]
         # take the re-hex string of the hash
         hashable.extend(hex(geometry[k].__hash__()) for k in geometry.keys())
         return caching.hash_fast("".join(hashable).encode("utf-8"))
@@ -474,7 +475,12 @@ class Scene(Geometry3D):
 
         # get the geometry name and transform for each instance
         graph = self.graph
-        instance = [graph[n] for n in graph.nodes_geometry]
+        # only the instances of geometry which has mass properties
+        instance = [
+            (mat, g)
+            for mat, g in (graph[n] for n in graph.nodes_geometry)
+            if g in center_mass and g in mass
+        ]
 
         # get the transformed center of mass for each instance
         transformed = np.array(
@@ -551,7 +557,7 @@ class Scene(Geometry3D):
           Summed area of every instanced geometry
         """
         # get the area of every geometry that has a volume attribute
-        volume = {n: g.volume for n, g in self.geometry.items() if hasattr(g, "area")}
+        volume = {n: g.volume for n, g in self.geometry.items() if hasattr(g, "volume")}
         # sum the area including instancing
         return sum(
             (volume.get(self.graph[n][1], 0.0) for n in self.graph.nodes_geometry), 0.0
